@@ -142,6 +142,9 @@ def project_result(api, r):
     return {"single": -1, "value": to_term(r), "tags": []}
 
 
+STABLE_APIS = ("read", "write", "generic", "_list_identity", "get_module_info", "get_plc_info", "get_plc_name", "get_plc_time")
+
+
 def make_driver(sc):
     import pycomm3
     kind = sc["driver"]["kind"]
@@ -174,7 +177,11 @@ def do_call(drv, c):
     from .values import from_term
     api = c["api"]
     if api == "_env":                          # the environment changes (not a library call): the target's admission policy
-        SessionSocket.current.target.policy = c["intent"]["policy"]
+        tgt = SessionSocket.current.target
+        if "policy" in c["intent"]:
+            tgt.policy = c["intent"]["policy"]
+        if "identity" in c["intent"]:                # the device behind the address was exchanged / updated
+            tgt.identity = dict(c["intent"]["identity"])
         return None
     if api == "open":
         return drv.open()
@@ -269,12 +276,15 @@ def run_scenario(sc):
             s.ev({"k": "ret", "api": "construct", "outcome": "exc", "cls": type(ex).__name__, "pycomm": 1 if isinstance(ex, PycommError) else 0,
                   "result": {"single": -1, "value": {"none": 1}, "tags": []}, "connected": 0, "size": -1, "faulted": 0, "peer_gone": 0})
             return {"id": sc["id"], "events": s.events, "target_log": [], "ledger": [], "mem_after": {}}
+        kept = []
         for c in sc["calls"]:
             s.ev({"k": "call", "api": c["api"], "intent": c.get("intent", {}), "faulted": 1 if s.fault_fired else 0})
             rec = {"k": "ret", "api": c["api"]}
             try:
                 r = do_call(drv, c)
                 rec.update({"outcome": "value", "cls": "", "pycomm": 0, "result": project_result(c["api"], r)})
+                if c["api"] in STABLE_APIS:
+                    kept.append((c["api"], r, json.dumps(rec["result"], sort_keys=True)))
                 if c["api"] in ("open", "get_tag_list", "enter") and c.get("view") and sc["driver"]["kind"] == "logix":
                     rec["view"] = upload_view(drv)
             except BudgetExceeded:
@@ -291,5 +301,13 @@ def run_scenario(sc):
             s.ev(rec)
             if rec["outcome"] == "hang":
                 break
+        # a result handed to the caller is a value: later calls must not change it
+        for api, r, before in kept:
+            try:
+                now = json.dumps(project_result(api, r), sort_keys=True)
+            except Exception:
+                now = None
+            if now != before:
+                s.ev({"k": "mutated", "api": api})
     return {"id": sc["id"], "events": s.events, "target_log": s.target.log, "ledger": s.target.ledger,
             "mem_after": {k: list(v) for k, v in s.target.project.mem.items()} if s.target.project else {}}
